@@ -1165,8 +1165,9 @@ def run_C11(ctx):
                 def step(svx, o):
                     if backend == "np":
                         return run.numpy_step(svx, o)
-                    F, _ = run.function(backend, 0, False, o)
-                    vals, probs = run.call(F, 0, False, svx)
+                    # (with the extra flow outputs: they are part of what the compiled step returns)
+                    F, _ = run.function(backend, 0, True, o)
+                    vals, probs = run.call(F, 0, True, svx)
                     if vals is None:
                         raise RuntimeError("; ".join(probs))
                     return vals
@@ -1214,6 +1215,11 @@ def run_C11(ctx):
                             exp[k] = max(0.0, base[k]) if o[fl] else base[k]
                         # a nan (negative density/speed left unclamped) is outside the admissible domain
                         cmpkeys = [k for k in keys if not math.isnan(base[k])]
+                        # the reported flows are those of the plain step from the clamped state too (no next-option
+                        # touches a flow)
+                        for k in [k for k in got if k.split()[0] in ("q", "qo") and k in base and not math.isnan(base[k])]:
+                            exp[k] = base[k]
+                            cmpkeys.append(k)
                         bad = states_close(got, exp, cmpkeys)
                         distinct.add((topo_key(net), tuple(sorted(o.items())), backend))
                         if bad:
@@ -1686,9 +1692,17 @@ def run_C16(ctx):
                     Rk = impl.Real(net, pv, sym_params=sp)
                     eng = impl.CsEngine(sym)
                     Rk.net.step(engine=eng, **Rk.step_kwargs())
-                    Fk = eng.to_function(Rk.net, compact=1, more_out=False, parameters={"thA": thA, "thB": thB}, **Rk.step_kwargs())
+                    tokL = f"lp.{ls_[0]}.L"
+                    symL = st_.sym("L_last")
+                    sp[tokL] = symL
+                    Rk = impl.Real(net, pv, sym_params=sp)
+                    eng = impl.CsEngine(sym)
+                    Rk.net.step(engine=eng, **Rk.step_kwargs())
+                    # (a scalar declared AFTER the two vectors: it comes last in the stacked vector)
+                    Fk = eng.to_function(Rk.net, compact=1, more_out=False, parameters={"thA": thA, "thB": thB, "L_last": symL},
+                                         **Rk.step_kwargs())
                     out["coverage"]["evaluations"] += 1
-                    gotk, probs = Runner(net, pv).call(Fk, 1, False, sv, ptoks=toksA + toksB)
+                    gotk, probs = Runner(net, pv).call(Fk, 1, False, sv, ptoks=toksA + toksB + [tokL])
                     Fn_, _ = plain.function(sym, 1, False)
                     refk, _p = plain.call(Fn_, 1, False, sv)
                     if gotk is None:
@@ -1700,7 +1714,7 @@ def run_C16(ctx):
                             k, x, y = bad[0]
                             fail(out, f"C16:{topo_key(net)}:two-stacked-value", net, pv, sv,
                                  f"{sym} compact=1, parameters declared as two stacked entries (thA for link {ls_[0]}, thB for link "
-                                 f"{ls_[1]}; p = thA then thB): {k} = {x!r}, compiled with the numbers {y!r}", sym=sym)
+                                 f"{ls_[1]}, then the scalar L of link {ls_[0]}; p in that order): {k} = {x!r}, compiled with the numbers {y!r}", sym=sym)
         except Exception as ex:
             fail(out, f"C16:{topo_key(net)}:two-stacked-raise", net, pv, sv,
                  f"two declared parameter entries that are stacks of three symbols, compact=1: raised {ex!r:.300}")
@@ -2583,7 +2597,8 @@ def run_C12(ctx):
         # element parameters given as NumPy values (0-d arrays for the turn rates): two steps leave them as they
         # were and both give what numbers give
         try:
-            Rw = impl.Real(net, pv, param_wrap=lambda tok, x: np.array(x, dtype=float) if tok.endswith(".turnrate") else x)
+            Rw = impl.Real(net, pv, param_wrap=lambda tok, x: np.array(x, dtype=float)
+                           if tok.endswith(".turnrate") or tok.endswith(".rho_crit") else x)
             par0 = elem_params(Rw)
             for rep in range(2):
                 got_w, _ = Rw.numpy_step(sv)
